@@ -3,6 +3,7 @@ Helper lemmas for the content index model (C10).  Property theorems: `Rpft/Props
 -/
 import Rpft.Index
 import Rpft.Lemmas.Dict
+import Rpft.Lemmas.Cell
 set_option linter.unusedSimpArgs false
 set_option linter.unusedVariables false
 namespace Rpft.Index
@@ -613,5 +614,65 @@ theorem runFlat_data {res : Resolve} :
       · simp only [dataOpsOf, List.filter_cons, hk, decide_false, Bool.false_eq_true, if_false]
         rw [← d2 hk]
         exact this
+
+/-! ### surrounding whitespace of a cell (`str.strip`) -/
+
+theorem lstrip_append_ws {ws : Char → Bool} {l : Str} (hl : ∀ c ∈ l, ws c = true) (s : Str) :
+    lstrip ws (l ++ s) = lstrip ws s := by
+  induction l with
+  | nil => rfl
+  | cons c l ih =>
+    have hc := hl c (by simp)
+    have := ih (fun x hx => hl x (by simp [hx]))
+    simp only [lstrip] at this ⊢
+    simp [List.dropWhile_cons, hc, this]
+
+theorem rstrip_append_ws {ws : Char → Bool} {r : Str} (hr : ∀ c ∈ r, ws c = true) (s : Str) :
+    rstrip ws (s ++ r) = rstrip ws s := by
+  induction s with
+  | nil => simpa [rstrip] using Cell.rstrip_eq_nil_of_all hr
+  | cons c s ih =>
+    rw [List.cons_append, Cell.rstrip_cons, Cell.rstrip_cons, ih]
+
+theorem strip_padded {ws : Char → Bool} {l r : Str} (hl : ∀ c ∈ l, ws c = true)
+    (hr : ∀ c ∈ r, ws c = true) (s : Str) : strip ws (l ++ s ++ r) = strip ws s := by
+  unfold strip
+  rw [List.append_assoc, lstrip_append_ws hl]
+  induction s with
+  | nil =>
+    have h := lstrip_append_ws hr ([] : Str)
+    rw [List.append_nil] at h
+    rw [List.nil_append, h]
+  | cons c s ih =>
+    by_cases hc : ws c = true
+    · simpa [lstrip, List.dropWhile_cons, hc] using ih
+    · have hc' : ws c = false := by simpa using hc
+      simp only [lstrip, List.cons_append, List.dropWhile_cons, hc', Bool.false_eq_true, if_false]
+      exact rstrip_append_ws hr (c :: s)
+
+/-- `s'` is the cell `s` with surrounding whitespace: any characters `str.strip()` removes
+(ASCII and Unicode, `pyWs`), before and / or after -/
+def Padded (s s' : Str) : Prop :=
+  ∃ l r : Str, (∀ c ∈ l, pyWs c = true) ∧ (∀ c ∈ r, pyWs c = true) ∧ s' = l ++ s ++ r
+
+theorem cellText_padded {s s' : Str} (h : Padded s s') : cellText s' = cellText s := by
+  obtain ⟨l, r, hl, hr, rfl⟩ := h
+  exact strip_padded hl hr s
+
+theorem cellNames_padded {s s' : Str} (h : Padded s s') : cellNames s' = cellNames s := by
+  obtain ⟨l, r, hl, hr, rfl⟩ := h
+  unfold cellNames
+  rw [strip_padded hl hr s]
+
+/-- lists related entry by entry -/
+inductive Pointwise {α : Type} (R : α → α → Prop) : List α → List α → Prop
+  | nil : Pointwise R [] []
+  | cons {a b : α} {as bs : List α} : R a b → Pointwise R as bs → Pointwise R (a :: as) (b :: bs)
+
+theorem map_cellText_padded {ts ts' : List Str} (h : Pointwise Padded ts ts') :
+    ts'.map cellText = ts.map cellText := by
+  induction h with
+  | nil => rfl
+  | cons hp _ ih => simp [cellText_padded hp, ih]
 
 end Rpft.Index
